@@ -1,6 +1,6 @@
-CONSTANTS MaxLen = 3  MaxArgs = 2  MaxLen2 = 0  Bug = "BlockStartStay"  Emit = FALSE
+CONSTANTS MaxLen = 3  MaxArgs = 2  MaxLen2 = 0  Bug = "BlockStartStay"  AdjLen = 3  Emit = FALSE
 CONSTANT Families = {"scan"}
-CONSTANT Alphabet <- MCAlphabet  Alphabet2 <- MCAlphabet2  ScanVals <- MCScanVals  Vals <- MCVals  WidthStrs <- MCWidthStrsQuick
+CONSTANT Alphabet <- MCAlphabet  Alphabet2 <- MCAlphabet2  ScanVals <- MCScanVals  Vals <- MCVals  AdjTokens <- MCAdjTokens  WidthStrs <- MCWidthStrsQuick
 INIT Init
 NEXT Next
 INVARIANT NoMismatch
